@@ -346,7 +346,7 @@ def _(M, a, c):
     return Native('FmtArg', v=a[0], ty=m.group(2), fk=m.group(1))
 @model_re(r'^Arguments::new$')
 def _(M, a, c): return Native('Arguments', tmpl=a[0], args=a[1])
-@model_re(r'^Arguments::from_str$')
+@model_re(r'^Arguments::from_str(_nonconst)?$')
 def _(M, a, c): return Native('Arguments', lit=a[0])
 def render_args(M, ar):
     if 'lit' in ar.d: return toelems(ar.d['lit'])
